@@ -45,7 +45,7 @@ def plan(tier, seed):
         for k, (srv, fbd) in enumerate([(True, False), (True, True), (False, False), (False, True)]):
             jobs.append({"func": "close_codes", "fw": "twisted" if k % 2 else "asyncio", "name": "closecodes/%d" % k,
                          "args": {"server": srv, "fbd": fbd, "stride": 16, "offset": (seed + k) % 16}})
-        n = 120
+        n = 220
         for i, fw in enumerate(("twisted", "asyncio")):
             for sh in range(3):
                 jobs.append({"func": "sequences", "fw": fw, "nvx": str(sh % 2), "name": "seq/%s/%d" % (fw, sh), "args": {"seed": seed * 1000 + i * 10 + sh, "n": n}})
@@ -334,7 +334,7 @@ def close_codes(col, server, fbd, stride, offset):
 VIOLATIONS = ["rsv", "reserved-data-op", "reserved-ctl-op", "fragmented-control", "control>125", "continuation-without-start", "new-data-inside-message",
               "non-minimal-126", "non-minimal-127", "len>=2^63", "wrong-mask", "close-1-byte", "close-bad-code", "close-bad-utf8", "text-overlong",
               "text-surrogate", "text->10ffff", "text-truncated-at-end", "text-bad-in-2nd-fragment", "rsv1-control", "rsv1-continuation",
-              "text-generated", "text-generated", "text-generated"]
+              "text-generated", "text-generated", "text-generated", "text-generated", "text-generated", "text-generated"]
 # ways to spoil a valid UTF-8 text (RFC 3629): (name, octets appended after a valid prefix, may valid text follow?)
 BAD_TEXT = [("trunc2", b"\xc3", False), ("trunc3a", b"\xe2", False), ("trunc3b", b"\xe2\x82", False), ("trunc4a", b"\xf0", False), ("trunc4b", b"\xf0\x9f", False),
             ("trunc4c", b"\xf0\x9f\x98", False), ("lone-continuation", b"\x80", True), ("bad-continuation", b"\xe2\x28", True), ("overlong2", b"\xc0\xaf", True),
